@@ -187,7 +187,7 @@ def parse(strace_file: Path):
                 for (p, fd) in list(offsets):
                     if p == src:
                         offsets[(dst, fd)] = offsets.pop((p, fd))
-                events.append({"k": "fs", "pid": pid, "op": "rename", "p": src, "q": dst})
+                events.append({"k": "fs", "pid": pid, "op": "rename", "p": src, "q": dst, "sys": name})
                 continue
             if name in ("unlink", "unlinkat"):
                 p = _path_arg(a[0], a[1]) if name == "unlinkat" else _path_arg(None, a[0])
@@ -218,6 +218,7 @@ def record(jobs_file: Path, out_dir: Path, *, timeout: float = 1200, driver: str
     env = dict(os.environ)
     env["VERIF_MARK"] = "1"
     env["TQDM_DISABLE"] = "1"
+    env["PYTHONDONTWRITEBYTECODE"] = "1"
     env.setdefault("TF_CPP_MIN_LOG_LEVEL", "3")
     p = subprocess.run(cmd, env=env, capture_output=True, text=True, timeout=timeout)
     (out_dir / "driver.stdout").write_text(p.stdout[-20000:])
